@@ -93,7 +93,6 @@ def _h_aio(world: World) -> None:
     version = world.pick("version", ["1.3", "1.2"])
     lib_server = bool(world.choose("lib_server", 2))
     shape = world.pick("shape", ["eager", "wtr", "mirror"])
-    avoid = getattr(world, "avoid_known", True)
     caps = [1 << 20, 65536, 16384, 4096, 2048]
     big = 4 << 20
     cap_l2p = caps[world.choose("cap_l2p", len(caps))]
@@ -101,15 +100,13 @@ def _h_aio(world: World) -> None:
     big_ok = True
     a_writes = _gen_writes(world, "A", big_ok)
     b_writes = _gen_writes(world, "B", big_ok)
-    if avoid and shape in ("wtr", "mirror"):
-        # open known finding D9 needs: both directions blocked by capacity at the same time.  Keep at least one
-        # direction's total traffic below its link capacity so that the exact input class is not generated.
-        # (asyncio's transport keeps reading into the 256 KiB protocol buffer of the adapter until its high-water mark,
-        # so a direction only blocks once more than capacity + ~192 KiB is outstanding)
-        tot_a = sum(w["size"] for w in a_writes) + 4096
-        tot_b = sum(w["size"] for w in b_writes) + 4096
-        if tot_a > cap_l2p + 150000 and tot_b > cap_p2l + 150000:
-            cap_l2p = 4 << 20
+    # optional second writer task on the library side (its writes are whole messages >= 17 bytes so that the peer's
+    # plaintext can be attributed: it must be a merge of the two writers' sequences of whole writes)
+    two_writers = world.choose("two_writers", 3) == 2
+    a2_writes = _gen_writes(world, "A2", big_ok) if two_writers else []
+    if two_writers:
+        for w in a_writes + a2_writes:
+            w["size"] = max(w["size"], 17)
     net = SimNet(world)
     backend = SimAsyncIOBackend(net)
     d_l2p = Delivery.draw(world, "l2p")
@@ -131,8 +128,9 @@ def _h_aio(world: World) -> None:
     net.short_write_den = [0, 0, 6][world.choose("short", 3)]
     A = [_payload(seed16, "A", i, w["size"]) for i, w in enumerate(a_writes)]
     B = [_payload(seed16, "B", i, w["size"]) for i, w in enumerate(b_writes)]
-    A_all, B_all = b"".join(A), b"".join(B)
-    world.notes.update(version=version, lib_server=lib_server, shape=shape, cap_l2p=cap_l2p, cap_p2l=cap_p2l, a_sizes=[len(x) for x in A], b_sizes=[len(x) for x in B], d_l2p=(d_l2p.frag, d_l2p.size, d_l2p.delays), d_p2l=(d_p2l.frag, d_p2l.size, d_p2l.delays))
+    A2 = [_payload(seed16, "A2", i, w["size"]) for i, w in enumerate(a2_writes)]
+    A_all, B_all = b"".join(A) + b"".join(A2), b"".join(B)
+    world.notes.update(version=version, lib_server=lib_server, shape=shape, cap_l2p=cap_l2p, cap_p2l=cap_p2l, a_sizes=[len(x) for x in A], a2_sizes=[len(x) for x in A2], b_sizes=[len(x) for x in B], d_l2p=(d_l2p.frag, d_l2p.size, d_l2p.delays), d_p2l=(d_p2l.frag, d_p2l.size, d_p2l.delays))
     state: dict[str, Any] = {"lib_got": bytearray(), "peer_got": bytearray(), "phase": "handshake", "done": set()}
     peer: TLSPeer | None = None
     if shape != "mirror":
@@ -181,6 +179,8 @@ def _h_aio(world: World) -> None:
         state["phase"] = "transfer"
         async with asyncio.TaskGroup() as tg:
             tg.create_task(writer(tls, writes, payloads, name), name=f"{name}-writer")
+            if name == "lib" and two_writers:
+                tg.create_task(writer(tls, a2_writes, A2, "lib2"), name="lib-writer2")
             tg.create_task(reader(tls, total_in, sink, name, bufsize, into), name=f"{name}-reader")
         state[name + ".tls"] = tls
 
@@ -226,11 +226,22 @@ def _h_aio(world: World) -> None:
     peer_plain = peer.plain_in if peer is not None else bytes(state["peer_got"])
     if bytes(state["lib_got"]) != B_all:
         raise Violation("plaintext-equal", f"library side read {len(state['lib_got'])} bytes != peer wrote {len(B_all)} (first diff at {_first_diff(bytes(state['lib_got']), B_all)})", key=f"C08/aio/{shape}/plaintext-equal/lib-read")
-    if peer_plain != A_all:
+    if two_writers:
+        rest, qa, qb = bytes(peer_plain), list(A), list(A2)
+        while rest:
+            if qa and rest.startswith(qa[0]):
+                rest = rest[len(qa.pop(0)) :]
+            elif qb and rest.startswith(qb[0]):
+                rest = rest[len(qb.pop(0)) :]
+            else:
+                raise Violation("plaintext-equal", f"peer plaintext is not a merge of whole writes of the two writer tasks: {len(peer_plain) - len(rest)} bytes attributed, {len(rest)} left; sizes A={[len(x) for x in A]} A2={[len(x) for x in A2]}", key=f"C08/aio/{shape}/plaintext-equal/two-writers")
+        if qa or qb:
+            raise Violation("plaintext-equal", f"peer plaintext misses {len(qa)}+{len(qb)} writes", key=f"C08/aio/{shape}/plaintext-equal/two-writers-missing")
+    elif peer_plain != A_all:
         raise Violation("plaintext-equal", f"peer read {len(peer_plain)} bytes != library wrote {len(A_all)} (first diff at {_first_diff(peer_plain, A_all)}); peer error={peer.engine.error if peer else None}", key=f"C08/aio/{shape}/plaintext-equal/peer-read")
     # confidentiality: nothing the library handed to the wrapped transport contains a plaintext marker
     wire = b"".join(lib.sent_log)
-    for i, p in enumerate(A):
+    for i, p in enumerate(A + A2):
         if len(p) >= 16 and p[:16] in wire:
             raise Violation("confidentiality", f"plaintext marker of write {i} found on the wire", key=f"C08/aio/{shape}/confidentiality")
     if not _parse_records(wire):
